@@ -23,8 +23,8 @@ CLAIMED = {
  'C01': ('Machine-checked theorems (Lean 4, over the reals) about an executable model of the SO(3)/SE(3) kernels with the code\'s exact branches and constants: '
          'exp3/exp6 land in SO(3)/SE(3) for every rotation vector (both sides of the 1e-6 cut-off), log3(exp3 w) = w for 1e-6 <= |w| < pi and = 0 inside the band, '
          'exp3(log3 R) = R on all of SO(3) (identity, generic and half-turn branches with all three pivots; angle 0 or at least the cut-off), '
-         'hat/vee inverse, inv(T)T = I, Ad(T1T2) = Ad(T1)Ad(T2), Ad(inv T) = inv(Ad T), T[V]inv(T) = [Ad(T)V], ad = bracket. log6(exp6 V) = V for every twist with |w| = 0 or in [1e-6, pi) and exp6(log6 T) = T for every rigid transform with rotation angle 0 or in [1e-6, pi) (lterm * G = theta I from K^3 = -K and the half-angle identities); '
-         'only the half-turn branch of exp6(log6 T) is decided on the implementation (labelled sampled). Model tied to the compiled kernels by a differential run on structured inputs.',
+         'hat/vee inverse, inv(T)T = I, Ad(T1T2) = Ad(T1)Ad(T2), Ad(inv T) = inv(Ad T), T[V]inv(T) = [Ad(T)V], ad = bracket. log6(exp6 V) = V for every twist with |w| = 0 or in [1e-6, pi) and exp6(log6 T) = T for every rigid transform with rotation angle 0 or at least the cut-off, half turns included (lterm * G = theta I from K^3 = -K and the half-angle identities). '
+         'Model tied to the compiled kernels by a differential run on structured inputs.',
          'Trusted: Lean kernel, Mathlib, harness generators/tolerances; IEEE rounding/libm/Numba outside the theorems (the falsifier found a genuine precision defect near pi that no real-number theorem can see: known finding).',
          'Lean 4 proofs over a generic executable model (Float instance run against the code, real instance proved) + differential correspondence',
          'DESIGN.md section 5 C01'),
@@ -51,7 +51,7 @@ CLAIMED = {
  'C18': ('Machine-checked theorems (Lean 4, reals) about an executable model of the fsr helpers: plane contains its three points; mirror negates exactly the local z coordinate of any frame '
          '(anywhere in space) and is an involution; midpoint has the mean position and its relative rotation squares to the total relative rotation (Rodrigues additivity); lookAt keeps the position and is a '
          'proper rotation with local z at the target (outside the vertical set); distance is the Euclidean metric; closeLinearGap advances by exactly |delta| along the line; IKPath has the requested length, '
-         'end points and constant increments; sphere samplers are unit; angleMod changes an angle by a multiple of 2pi. twistToGoal exponentiates onto the goal for every pair of rigid transforms whose relative rotation angle is 0 or in [1e-6, pi) (from exp6(log6 T) = T). The half-turn case of twistToGoal, closeArcGap, chain/numerical Jacobians and rotationFromVector are decided on the implementation only (sampled). '
+         'end points and constant increments; sphere samplers are unit; angleMod changes an angle by a multiple of 2pi. twistToGoal exponentiates onto the goal for every pair of rigid transforms whose relative rotation angle is 0 or at least the cut-off, half turns included (from exp6(log6 T) = T). closeArcGap, chain/numerical Jacobians and rotationFromVector are decided on the implementation only (sampled). '
          'Model tied by a differential run; every relation also evaluated on the real functions.',
          'Trusted: Lean kernel, Mathlib, harness generators; optimiser-based helpers not modelled; rounding outside.',
          'Lean 4 proofs on a hand-written model (sympy-found linear_combination certificates) + differential correspondence + on-function falsifier',
